@@ -82,8 +82,6 @@ let zeros n = List.init n (fun _ -> N0)
 let show_span nalloc s' =
   Printf.sprintf "%d %s %s" (nalloc - List.length s'.sp_data) (show_u64 (sp_bits s')) (show_u64 s'.sp_off)
 
-let pad_fixed = ref false
-let sub_fixed = ref false
 let cpp_command (toks : string list) : string =
   match toks with
   | ["sat"; size; off; len] -> show_u64 (sp_saturate (sp [] size off) (parse_u64 len))
@@ -111,7 +109,7 @@ let cpp_command (toks : string list) : string =
   | ["xz"; buf; size; off; len] -> let b = parse_buf buf in show_set b (setZeros (sp b size off) (parse_u64 len))
   | ["xpad"; buf; size; off; n] ->
     let b = parse_buf buf in
-    (match (if !pad_fixed then padAndMoveToAlignment_fix else padAndMoveToAlignment) (sp b size off) (parse_u64 n) with
+    (match padAndMoveToAlignment (sp b size off) (parse_u64 n) with
      | None -> "UB"
      | Some (Inr _) -> "-3 " ^ off ^ " " ^ show_buf b
      | Some (Inl (d, o)) -> "0 " ^ show_u64 o ^ " " ^ show_buf d)
@@ -121,7 +119,7 @@ let cpp_command (toks : string list) : string =
     let na = int_of_string nalloc in show_span na (subspan_bytes_clamped (sp (zeros na) size off) (parse_u64 nb))
   | ["xsub2"; nalloc; size; off; at; sb] ->
     let na = int_of_string nalloc in
-    (match (if !sub_fixed then subspan2_fix else subspan2) (sp (zeros na) size off) (parse_u64 at) (parse_u64 sb) with Inr _ -> "-3" | Inl s' -> show_span na s')
+    (match subspan2 (sp (zeros na) size off) (parse_u64 at) (parse_u64 sb) with Inr _ -> "-3" | Inl s' -> show_span na s')
   | ["xza"; buf; size; off] -> let b = parse_buf buf in show_set b (setZeros_all (sp b size off))
   | ["xcpa"; dst; dsize; doff; src; ssize; soff] -> show_ob (copyTo_all (sp (parse_buf src) ssize soff) (sp (parse_buf dst) dsize doff))
   | ["xat"; size; off; bits] -> let s' = at_offset (sp [] size off) (parse_u64 bits) in show_u64 (sp_bits s') ^ " " ^ show_u64 s'.sp_off
@@ -290,18 +288,13 @@ let py_command (toks : string list) : string =
   | _ -> "ERR unknown command"
 
 let () =
-  (* cpp[+pad][+sub]: the C++ model; +pad / +sub select the text of design_notes/C14_bitspan_wrap_fix.patch (Prims/CppPrimsFix.v)
-     for padAndMoveToAlignment / subspan(bits_at, size_bits) instead of the text currently in /repo *)
-  let variant = if Array.length Sys.argv = 2 then String.split_on_char '+' Sys.argv.(1) else [] in
-  let cpp = (match variant with "cpp" :: _ -> true | _ -> false) in
-  pad_fixed := cpp && List.mem "pad" variant;
-  sub_fixed := cpp && List.mem "sub" variant;
-  let py = (variant = ["py"]) in
+  let variant = if Array.length Sys.argv = 2 then Sys.argv.(1) else "" in
+  let cpp = (variant = "cpp") in
+  let py = (variant = "py") in
   let little = match variant with
-    | ["c-little"] -> true
-    | ["c-any"] | ["py"] -> false
-    | "cpp" :: _ -> false
-    | _ -> prerr_endline "usage: driver c-any|c-little|cpp[+pad][+sub]|py"; exit 2 in
+    | "c-little" -> true
+    | "c-any" | "py" | "cpp" -> false
+    | _ -> prerr_endline "usage: driver c-any|c-little|cpp|py"; exit 2 in
   let out = Buffer.create 65536 in
   (try
     while true do
